@@ -17,6 +17,9 @@ pub enum C17Case {
     Synth { signo: i32, code: i32, pid: i32, uid: u32, fill: Vec<u8> },
     /// real delivery: mechanism x signal index
     Real { mech: u8, sig: u8 },
+    /// re-entrancy: `iters` extractions of a synthetic record on a thread that is bombarded with
+    /// signals whose own action extracts the origin of its delivery as well
+    Reentrant { signo: i32, code: i32, pid: i32, uid: u32, iters: u32 },
 }
 
 const SI_TIMER: i32 = -2;
@@ -38,7 +41,7 @@ pub fn strategy() -> BoxedStrategy<C17Case> {
         -60, i32::MIN, i32::MAX,
     ];
     prop_oneof![
-        6 => (
+        1200 => (
             prop_oneof![3 => 1i32..65, 3 => Just(libc::SIGCHLD), 1 => any::<i32>()],
             prop_oneof![5 => proptest::sample::select(codes), 1 => any::<i32>(), 1 => -10i32..140],
             any::<i32>(),
@@ -46,7 +49,16 @@ pub fn strategy() -> BoxedStrategy<C17Case> {
             proptest::collection::vec(any::<u8>(), 0..100),
         )
             .prop_map(|(signo, code, pid, uid, fill)| C17Case::Synth { signo, code, pid, uid, fill }),
-        1 => (0u8..12, 0u8..8).prop_map(|(mech, sig)| C17Case::Real { mech, sig }),
+        200 => (0u8..12, 0u8..8).prop_map(|(mech, sig)| C17Case::Real { mech, sig }),
+        // rare: each costs ~0.1 s
+        1 => (
+            prop_oneof![Just(libc::SIGUSR1), Just(libc::SIGCHLD), 1i32..65],
+            proptest::sample::select(vec![libc::SI_USER, SI_KERNEL, libc::SI_QUEUE, SI_TKILL, SI_TIMER, 1, 2, 3]),
+            1i32..100_000,
+            1u32..100_000,
+            60_000u32..160_000,
+        )
+            .prop_map(|(signo, code, pid, uid, iters)| C17Case::Reentrant { signo, code, pid, uid, iters }),
     ]
     .boxed()
 }
@@ -368,8 +380,93 @@ fn real(mech: u8, sigi: u8) -> CaseReport {
     rep
 }
 
+static RE_BAD_INNER: AtomicUsize = AtomicUsize::new(0);
+static RE_INNER: AtomicUsize = AtomicUsize::new(0);
+
+fn child_reentrant(signo: i32, code: i32, pid: i32, uid: u32, iters: u32, fd: i32) {
+    crate::vsched::install();
+    let me = unsafe { libc::getpid() };
+    let _ = unsafe {
+        signal_hook_registry::register_sigaction(libc::SIGUSR2, move |info: &siginfo_t| {
+            let o = Origin::extract(info);
+            RE_INNER.fetch_add(1, Ordering::SeqCst);
+            let ok = o.signal == libc::SIGUSR2 && o.process.as_ref().map_or(false, |p| p.pid == me) && matches!(o.cause, Cause::Sent(_));
+            if !ok {
+                RE_BAD_INNER.fetch_add(1, Ordering::SeqCst);
+            }
+        })
+    };
+    let mut info: siginfo_t = unsafe { std::mem::zeroed() };
+    unsafe {
+        let words = &mut info as *mut siginfo_t as *mut i32;
+        *words.add(0) = signo;
+        *words.add(2) = code;
+        *words.add(4) = pid;
+        *(words.add(5) as *mut u32) = uid;
+    }
+    let (want_cause, want_proc) = reference(signo, code);
+    let main_thread = unsafe { libc::pthread_self() } as usize;
+    let stop = std::sync::Arc::new(std::sync::atomic::AtomicBool::new(false));
+    let stop2 = stop.clone();
+    let kicker = std::thread::spawn(move || {
+        unsafe {
+            let mut all: libc::sigset_t = std::mem::zeroed();
+            libc::sigfillset(&mut all);
+            libc::pthread_sigmask(libc::SIG_BLOCK, &all, std::ptr::null_mut());
+        }
+        while !stop2.load(Ordering::SeqCst) {
+            unsafe { libc::pthread_kill(main_thread as libc::pthread_t, libc::SIGUSR2) };
+            std::hint::spin_loop();
+        }
+    });
+    let mut bad = 0u32;
+    let mut first_bad = String::new();
+    for _ in 0..iters {
+        let o = unsafe { Origin::extract(&info) };
+        let ok = o.signal == signo
+            && cause_label(&o.cause) == want_cause
+            && match (&o.process, want_proc) {
+                (Some(p), true) => p.pid == pid && p.uid == uid,
+                (None, false) => true,
+                _ => false,
+            };
+        if !ok {
+            bad += 1;
+            if first_bad.is_empty() {
+                first_bad = format!("{:?}", o);
+            }
+        }
+    }
+    stop.store(true, Ordering::SeqCst);
+    let _ = kicker.join();
+    emit(fd, &json!({"k": "reentrant", "bad": bad, "first_bad": first_bad, "inner": RE_INNER.load(Ordering::SeqCst), "bad_inner": RE_BAD_INNER.load(Ordering::SeqCst)}));
+    emit(fd, &json!({"k": "done"}));
+}
+
+fn reentrant(signo: i32, code: i32, pid: i32, uid: u32, iters: u32) -> CaseReport {
+    let (recs, end) = fork_stream(30_000, move |fd| child_reentrant(signo, code, pid, uid, iters, fd));
+    let mut rep = CaseReport::default();
+    rep.hash = hash_of(&("reentrant", signo, code, pid, uid, iters));
+    rep.class("reentrancy-stress");
+    rep.sample = Some(json!({"reentrant": {"signo": signo, "code": code, "pid": pid, "uid": uid, "iters": iters}, "records": recs, "end": format!("{:?}", end)}));
+    if end != End::Exited(0) || !recs.iter().any(|r| r["k"] == "done") {
+        rep.inconclusive = Some(format!("reentrancy probe ended {:?}", end));
+        return rep;
+    }
+    let r = recs.iter().find(|r| r["k"] == "reentrant").unwrap();
+    rep.nontrivial = r["inner"].as_u64().unwrap_or(0) > 100;
+    if r["bad"].as_u64().unwrap_or(0) > 0 {
+        rep.viol("C17/reentrancy", format!("{} of {} extractions of one record (signal {}, code {}, pid {}) returned something else while {} signals whose action also extracts interrupted the thread; first: {}", r["bad"], iters, signo, code, pid, r["inner"], r["first_bad"]));
+    }
+    if r["bad_inner"].as_u64().unwrap_or(0) > 0 {
+        rep.viol("C17/reentrancy", format!("{} in-handler extractions of SIGUSR2 deliveries were wrong", r["bad_inner"]));
+    }
+    rep
+}
+
 pub fn run_case(case: &C17Case) -> CaseReport {
     match case {
+        C17Case::Reentrant { signo, code, pid, uid, iters } => reentrant(*signo, *code, *pid, *uid, *iters),
         C17Case::Synth { signo, code, pid, uid, fill } => synth(*signo, *code, *pid, *uid, fill),
         C17Case::Real { mech, sig } => real(*mech, *sig),
     }
@@ -396,6 +493,8 @@ fn extra(def: &PropDef, _args: &WorkerArgs, report: &mut WorkerReport) {
             cases.push(C17Case::Synth { signo, code, pid: 4242, uid: 1717, fill: vec![0xAB; 100] });
         }
     }
+    cases.push(C17Case::Reentrant { signo: libc::SIGUSR1, code: libc::SI_QUEUE, pid: 4242, uid: 77, iters: 250_000 });
+    cases.push(C17Case::Reentrant { signo: libc::SIGCHLD, code: 1, pid: 31337, uid: 1000, iters: 250_000 });
     for case in cases {
         let rep = run_case(&case);
         if let Some(v) = report.absorb(def, &rep, &known) {
